@@ -17,7 +17,7 @@ func init() {
 			"R3 the values appended to BadNode.Tokens are results of Token.Clone(), never the address of the live token. " +
 			"R4 BadNode.SQL decides the separator between two raw tokens from both trivia fields of the token (Space and Comments), or unconditionally. " +
 			"Does not decide: which tokens should be skipped (nesting counters), the '>>' split inside handleParseTypeError.",
-		Rules: []ruleFn{ruleC10R1, ruleC10R2, ruleC10R3, ruleC10R4},
+		Rules: []ruleFn{ruleC10R1, ruleC10R2, ruleC10R3, ruleC10R4, ruleC10R5},
 	})
 }
 
@@ -729,4 +729,116 @@ func instrDominates(a, b ssa.Instruction) bool {
 		}
 	}
 	return ia >= 0 && ia < ib
+}
+
+// ruleC10R5: a recorded token is the token. Token.Clone is what the skip loops store in BadNode.Tokens: the copy has to
+// carry every field of the original (Space and Comments decide the separator BadNode.SQL writes, Raw the text).
+func ruleC10R5(w *World, r *Report) {
+	const rule = "C10/R5"
+	r.rule(rule, "(*Token).Clone returns a whole-struct copy of its receiver; a field of the copy that is assigned again is given a slice with the same elements (append(empty, src...) or make(T, len(src)) filled by copy): nothing a recorded token needs — Space, Comments, Raw, Pos, End — is lost in the copy", 1)
+	fn := w.fn(w.Tok, "(*Token).Clone")
+	if fn == nil {
+		r.errorf("(*Token).Clone not found")
+		return
+	}
+	recv := fn.Params[0]
+	var cp *ssa.Alloc
+	whole := false
+	for _, b := range fn.Blocks {
+		for _, in := range b.Instrs {
+			st, ok := in.(*ssa.Store)
+			if !ok {
+				continue
+			}
+			if al, ok := st.Addr.(*ssa.Alloc); ok && w.isTokenPtr(al.Type()) {
+				if src, ok := isLoad(st.Val); ok && src == ssa.Value(recv) {
+					cp, whole = al, true
+				}
+			}
+		}
+	}
+	construct := "(*Token).Clone"
+	if !whole {
+		r.bad(rule, construct, w.pos(fn.Pos()), "the result is not a whole-struct copy of the receiver: fields of the token can be missing from recorded tokens")
+		return
+	}
+	// the copy is what is returned
+	for _, b := range fn.Blocks {
+		if ret, ok := b.Instrs[len(b.Instrs)-1].(*ssa.Return); ok {
+			if len(ret.Results) != 1 || ret.Results[0] != ssa.Value(cp) {
+				r.bad(rule, construct, w.pos(lastPos(b)), "the value returned is not the copy")
+				return
+			}
+		}
+	}
+	var problems []string
+	for _, u := range referrers(cp) {
+		fa, ok := u.(*ssa.FieldAddr)
+		if !ok {
+			continue
+		}
+		for _, fu := range referrers(fa) {
+			st, ok := fu.(*ssa.Store)
+			if !ok || st.Addr != ssa.Value(fa) {
+				continue
+			}
+			f := fieldAddrName(fa)
+			isSrc := func(v ssa.Value) bool {
+				addr, ok := isLoad(v)
+				if !ok {
+					return false
+				}
+				sfa, ok := addr.(*ssa.FieldAddr)
+				return ok && sfa.X == ssa.Value(recv) && fieldAddrName(sfa) == f
+			}
+			okv := false
+			switch x := st.Val.(type) {
+			case *ssa.Call:
+				if bi, ok := x.Call.Value.(*ssa.Builtin); ok && bi.Name() == "append" && len(x.Call.Args) == 2 && isSrc(x.Call.Args[1]) {
+					// append(nil / empty, src...)
+					switch a0 := x.Call.Args[0].(type) {
+					case *ssa.Const:
+						okv = a0.IsNil()
+					case *ssa.MakeSlice:
+						if k, isC := constInt(a0.Len); isC && k == 0 {
+							okv = true
+						}
+					}
+				}
+				if sc := x.Call.StaticCallee(); sc != nil && sc.Pkg != nil && sc.Pkg.Pkg.Path() == "slices" && sc.Name() == "Clone" && len(x.Call.Args) == 1 && isSrc(x.Call.Args[0]) {
+					okv = true
+				}
+			case *ssa.MakeSlice:
+				// make(T, len(src)[, cap]) + copy(dst, src)
+				lenOK := false
+				if c, ok := x.Len.(*ssa.Call); ok {
+					if bi, ok := c.Call.Value.(*ssa.Builtin); ok && bi.Name() == "len" && isSrc(c.Call.Args[0]) {
+						lenOK = true
+					}
+				}
+				copied := false
+				for _, bb := range fn.Blocks {
+					for _, in := range bb.Instrs {
+						if c, ok := in.(*ssa.Call); ok {
+							if bi, ok := c.Call.Value.(*ssa.Builtin); ok && bi.Name() == "copy" && len(c.Call.Args) == 2 && isSrc(c.Call.Args[1]) {
+								copied = true
+							}
+						}
+					}
+				}
+				if !lenOK {
+					problems = append(problems, fmt.Sprintf("%s of the copy is replaced by a slice whose length is not len(t.%s): copy() fills only len(dst) elements", f, f))
+				}
+				okv = lenOK && copied
+			}
+			if !okv {
+				problems = append(problems, fmt.Sprintf("%s of the copy is assigned a value that is not a copy of t.%s", f, f))
+			}
+		}
+	}
+	if len(problems) > 0 {
+		r.bad(rule, construct, w.pos(fn.Pos()), strings.Join(uniqSorted(problems), "; ")+": BadNode.Tokens no longer records what BadNode.SQL needs")
+	} else {
+		r.ok(rule, construct, w.pos(fn.Pos()), "whole-struct copy; no field replaced by something else than a copy of itself")
+	}
 }
